@@ -24,7 +24,7 @@ ASSUMPTIONS = ['NLA: the site is the reference coordinate of the C of CATG; CHIC
                'with no_umi_cigar_processing only the mirror relation is checked (the option defines the absolute value away)',
                'cycle-shifted reads are simulated without soft clip']
 MIN_NONTRIVIAL = {'quick': 3000, 'thorough': 150000}
-REQUIRED_MONITORS = ['obs:nla_fragments', 'obs:chic_fragments', 'obs:cycle_shift', 'obs:motif_broken', 'obs:clipped', 'mirror:fragments',
+REQUIRED_MONITORS = ['obs:read_1_with_insertion_deletion_or_skip', 'obs:nla_fragments', 'obs:chic_fragments', 'obs:cycle_shift', 'obs:motif_broken', 'obs:clipped', 'mirror:fragments',
                      'cli:records_checked', 'obs:invert_strand', 'obs:single_end', 'obs:sites_at_contig_ends', 'obs:fragments_with_site_0', 'molecule:family_sites_compared', 'obs:non_default_primer_lengths', 'obs:chic_reads_starting_on_the_first_or_last_base', 'obs:hard_clipped', 'obs:read_2_unmapped_next_to_read_1', 'obs:switch_given_as_int', 'obs:switch_given_as_NoneType', 'no_overhang:fragments', 'no_overhang:too_far_from_any_motif', 'no_overhang:cli_records_checked']
 SHARD_TIMEOUT = {'quick': 900, 'thorough': 5400}
 
@@ -284,6 +284,9 @@ def run_case(case):
                 kw['motif_ok'] = False
             if kind == 'single':
                 kw['single_end'] = True
+            if kind == 'plain' and case['i'] % 2 == 1 and (rid + case['i']) % 3 == 0:
+                # read 1 aligned with an insertion, a deletion or a skip (net length difference 1-12): the cut site stays at the ligated end
+                kw['r1_indel'] = (('I', 'D', 'N')[(rid // 3) % 3], (1, 2, 3, 5, 12)[(rid // 9) % 5])
             fr, tr = F.make_fragment(gen, r, rid, case['i'] + 1, method, r.randint(1, 3) if fam is None else fam['cell'], name,
                                      pos if fam is None else pos + r.randint(0, 5), reverse, F.rand_dna(r, 3) if fam is None else fam['umi'],
                                      r.randint(60, 300), chic_trimmed=trimmed, mismatches=r.choice([0, 0, 1]), r1_len=r.choice([25, 40, 40, 55]), **kw)
@@ -350,6 +353,8 @@ def run_case(case):
             acc.count('obs:single_end')
         if t.get('hard_clipped'):
             acc.count('obs:hard_clipped')
+        if t.get('r1_gap'):
+            acc.count('obs:read_1_with_insertion_deletion_or_skip')
         if t.get('mate_unmapped'):
             acc.count('obs:read_2_unmapped_next_to_read_1')
         wit = {'config': cfg, 'truth': {k: v for k, v in t.items() if k != 'key'}, 'observed': {k: str(v) for k, v in o.items()},
